@@ -57,7 +57,7 @@ CfgOf(c) == [name |-> c.name, nlevels |-> c.nlevels,
                              variant |-> c.levels[i].variant, cls |-> c.levels[i].cls]],
              limit |-> c.limit, hib |-> c.hib, gsc |-> c.gsc, gscn |-> c.gscn, gscw |-> c.gscw,
              max |-> c.max, sprout |-> c.sprout, generator |-> c.generator, haslocal |-> c.haslocal, cutoff |-> c.cutoff,
-             idlecheck |-> c.idlecheck, manual |-> c.manual, cache |-> c.cache, localmethod |-> IF c.sprout = "nbc_local" THEN 1 ELSE 0]
+             idlecheck |-> c.idlecheck, manual |-> c.manual, cache |-> c.cache, skipsame |-> c.skipsame, localmethod |-> IF c.sprout = "nbc_local" THEN 1 ELSE 0]
 
 -----------------------------------------------------------------------------
 (* Pre: model steps that precede the observation point.  Returns [st, errs] *)
@@ -444,6 +444,11 @@ SproutClauses(s, m, e) ==
               \/ (e.gen[i][1] \in DOMAIN m.d /\ m.d[e.gen[i][1]].last # <<>>
                   /\ e.gen[i][2][1][2] # MinRank(m.d[e.gen[i][1]].last))
          THEN {"C10_BestPerDemeProposesBest"} ELSE {})
+   \* C10 "SkipSameSprout never lets through a candidate numerically equal to a seed already sprouted from the same
+   \*      parent" (genome ids are identities of numeric content; e.snap is the tree before the round)
+   \cup (IF s.cfg.skipsame = 1 /\ \E x \in seeds : \E i \in DOMAIN e.snap.demes :
+              e.snap.demes[i].par = x[1] /\ e.snap.demes[i].seed # <<>> /\ e.snap.demes[i].seed[1] = x[2][1]
+         THEN {"C10_SkipSameSprout"} ELSE {})
    \cup (IF \E i \in DOMAIN e.gen : ~(/\ e.gen[i][1] \in Ids(s)
                                       /\ (s.D[e.gen[i][1]].active \/ viaLocal)
                                       /\ ~IsLeafLevel(s, Lvl(s, e.gen[i][1])))
